@@ -76,6 +76,33 @@ theorem writer_exclusive (v0 : Vis) (ths : List Th) (h : Fresh ths) (sched : Lis
 
 end Klev.C08
 
+/-! ### Non-vacuity
+
+The theorems at the concrete threads and schedule of `Klev.Conc.Ex` (`Klev/Proofs/ConcProofs.lean`):
+visible state `[m0, m1]`, thread 0 publishes two messages, thread 1 deletes offset 0, thread 2
+reads; the schedule interleaves them (the Delete's swap waits for the writer lock). -/
+section NonVacuity
+open Klev.Conc Klev.Conc.Ex
+
+example : Fresh ths := by unfold Fresh; decide
+example := Klev.C08.linearizable v0 ths (by unfold Fresh; decide) sched
+example := Klev.C08.done_result_in_log v0 ths (by unfold Fresh; decide) sched 0
+  { call := .publish [(20, [3], [4]), (21, [], [5])], phase := .done (.next 4) } (.next 4) (by decide) rfl
+-- the read (thread 2) has returned after `[2]`, the Publish (thread 0) has not started
+example := Klev.C08.realtime_order v0 ths (by unfold Fresh; decide) [2] [0, 1, 0, 1, 1, 0, 1, 0, 1, 1] 2 0
+  { call := .read 7, phase := .done (.answer 7 v0) } { call := .publish [(20, [3], [4]), (21, [], [5])] }
+  (.answer 7 v0) (by decide) rfl (by decide) rfl
+example := Klev.C08.publish_entry_range v0 [(2, .read 7, [], .answer 7 v0)]
+  [(1, .delete [0], [m0], .deleted [m0])] 0 [(20, [3], [4]), (21, [], [5])] [] (.next 4) (by decide)
+example := Klev.C08.no_unreported_loss v0 (run (init v0 ths) sched).log (by decide) m0 (by decide) (by decide)
+-- after `[0, 0]` thread 0 holds the writer lock (files written, not yet committed)
+example := Klev.C08.writer_exclusive v0 ths (by unfold Fresh; decide) [0, 0] 0 0
+  { call := .publish [(20, [3], [4]), (21, [], [5])], phase := .pubWritten [m2, m3] }
+  { call := .publish [(20, [3], [4]), (21, [], [5])], phase := .pubWritten [m2, m3] }
+  (by decide) (by decide) rfl rfl
+
+end NonVacuity
+
 #print axioms Klev.C08.source_facts
 #print axioms Klev.C08.linearizable
 #print axioms Klev.C08.done_result_in_log
